@@ -6,7 +6,7 @@ from vlib.core import guard
 from emmet import expand
 
 PROP_ID = 'C12'
-RULE = ("case = (structured script incl. inline/block mixes, text (also multi-line), repeaters, groups, self-closing marks and snippet aliases; syntax ∈ "
+RULE = ("case = (structured script incl. inline/block mixes, text (also multi-line, also starting or ending with a line break), value-less attributes with listed-boolean and other names, repeaters, groups, self-closing marks and snippet aliases; syntax ∈ "
         "html xml xsl jsx vue svelte; two independently drawn option sets A, B over output.format, indent (tab, 2/4 blanks, blank+tab, empty), newline (LF, CRLF, CR), "
         "baseIndent, inlineBreak 0–5, formatLeafNode, formatSkip/formatForce lists, comment.enabled/trigger/before/after (comment-syntax templates), selfClosingStyle). "
         "Oracle (metamorphic): the token streams of expand(abbr, A) and expand(abbr, B), lexed by an independent lexer, are equal after normalising inter-tag white "
@@ -171,21 +171,29 @@ def law_options():
 def script_strategy(syntax):
     names = G.NEUTRAL + G.STRUCT + ALIASES[syntax] * 2
     p = G.P(names=names, nameless=0.15, mentions='simple', text=0.3, text_kind='simple', text_only=0.12, groups=0.15, max_items=8, max_depth=2, rep=0.25, rep_max=3, sc=0.08, max_nodes=80, text_only_fields=0.5)
-    def multiline(sc, which):
-        # turn some simple texts into two-line texts
+    def multiline(sc, which, lead, booleans):
+        # turn some simple texts into two-line texts, let some start or end with a line break, and give some elements value-less attributes
+        # whose names are / are not in output.booleanAttributes (their printed form must not depend on any formatting option)
         n = [0]
         def walk(s):
             for it in s:
                 if isinstance(it, dict):
                     if 'g' in it:
                         walk(it['g'])
-                    elif it.get('x') and it.get('n'):
-                        n[0] += 1
-                        if which and n[0] % which == 0:
-                            it['x'] = it['x'] + ['\nsecond line']
+                    else:
+                        if booleans and it.get('n') and (len(it['n'][0]) + len(it.get('m') or [])) % booleans == 0 and not any(m[0] == 'a' and m[1] in ('disabled', 'checked', 'lang') for m in it['m']):
+                            it['m'] = it['m'] + [['a', ['disabled', 'checked', 'lang'][len(it['m']) % 3], 'none', None, False]]
+                        if it.get('x') and it.get('n'):
+                            n[0] += 1
+                            if which and n[0] % which == 0:
+                                it['x'] = it['x'] + ['\nsecond line']
+                            if lead and n[0] % lead == 1:
+                                it['x'] = (['\n' + it['x'][0]] + it['x'][1:]) if isinstance(it['x'][0], str) else ['\n'] + it['x']
+                            elif lead and n[0] % lead == 2:
+                                it['x'] = (it['x'][:-1] + [it['x'][-1] + '\n']) if isinstance(it['x'][-1], str) else it['x'] + ['\n']
         walk(sc)
         return sc
-    return st.builds(multiline, G.scripts(p), st.sampled_from([0, 0, 0, 2, 3]))
+    return st.builds(multiline, G.scripts(p), st.sampled_from([0, 0, 0, 2, 3]), st.sampled_from([0, 0, 0, 3, 4]), st.sampled_from([0, 0, 2, 3]))
 
 
 def strategy():
